@@ -17,10 +17,10 @@ import (
 type world interface {
 	nsyms() int
 	symName(i int) string
-	apply(i int) bool     // perform symbol i (message or time step), judge; false = not applicable in this state
+	apply(i int) bool      // perform symbol i (message or time step), judge; false = not applicable in this state
 	pick(r *rand.Rand) int // weighted symbol choice for random walks
-	fingerprint() string  // lease table + pool snapshot + reference table + client memory + time offsets
-	finish()              // 61 s step, drain with fresh clients, judge "available again"
+	fingerprint() string   // lease table + pool snapshot + reference table + client memory + time offsets
+	finish()               // 61 s step, drain with fresh clients, judge "available again"
 	close()
 	monitor() *mon
 }
